@@ -71,8 +71,11 @@ type op struct {
 	Shared     bool `json:"shared,omitempty"`
 	// est: lifetime the CLIENT proposes in its security ad (SecurityConfig.SessionDuration / SessionLease; 0 = attribute absent).
 	// The server's own duration and lease decide how long ITS entry lives.
-	AskDur   int `json:"askdur,omitempty"`
-	AskLease int `json:"asklease,omitempty"`
+	// est: the SERVER's own SessionDuration and SessionLease are 2^40 s (their nanosecond count overflows int64:
+	// the entry expires at once - it fails safe)
+	BigDur   bool `json:"bigdur,omitempty"`
+	AskDur   int  `json:"askdur,omitempty"`
+	AskLease int  `json:"asklease,omitempty"`
 	// resume
 	N     int    `json:"n,omitempty"`     // target session ordinal (also renew / inval)
 	Req   string `json:"req,omitempty"`   // legit idonly wrongkey rightkey unknown onechar
@@ -435,10 +438,14 @@ func (w *world) cacheOf(s *sess) *security.SessionCache {
 }
 
 // establish by a real full handshake; returns the new session
-func (w *world) establish(enc, authn, shared bool, askDur, askLease int) *sess {
+func (w *world) establish(enc, authn, shared bool, askDur, askLease int, bigDur bool) *sess {
 	cc, sc := net.Pipe()
 	ch := make(chan srvObs, 1)
-	go func() { ch <- serve(sc, serverConfigX(enc, w.custom, authn, false), clientAddr) }()
+	scfg := serverConfigX(enc, w.custom, authn, false)
+	if bigDur {
+		scfg.SessionDuration, scfg.SessionLease = 1<<40, 1<<40
+	}
+	go func() { ch <- serve(sc, scfg, clientAddr) }()
 	ccache := security.NewSessionCache()
 	peerName := srvName
 	if shared && w.custom == nil {
@@ -715,7 +722,7 @@ func runHistory(h history) runOut {
 		var term string
 		switch o.Kind {
 		case "est":
-			s := w.establish(o.Enc, o.Auth, o.Shared, o.AskDur, o.AskLease)
+			s := w.establish(o.Enc, o.Auth, o.Shared && !o.BigDur, o.AskDur, o.AskLease, o.BigDur)
 			if o.AskDur != 0 || o.AskLease != 0 {
 				out.counts["est-client-proposes-lifetime"]++
 			}
@@ -739,6 +746,13 @@ func runHistory(h history) runOut {
 			}
 			term = fmt.Sprintf("YStore n%d false %s %s %s %s z%d z%d", len(w.sess), keyTerm(s), core.Bool(s.authd),
 				core.Opt(s.user != "", hexs(s.user)), core.Opt(s.valid != "", hexs(s.valid)), sessDuration, sessLease)
+			if o.BigDur {
+				// 2^40 s * 10^9 wraps to a negative int64: the server's entry (and the client's copy) is expired from the start
+				s.dead = true // (exp < 0 would mean "never expires" in this bookkeeping)
+				term = fmt.Sprintf("YStore n%d false %s %s %s %s zhuge zhuge", len(w.sess), keyTerm(s), core.Bool(s.authd),
+					core.Opt(s.user != "", hexs(s.user)), core.Opt(s.valid != "", hexs(s.valid)))
+				out.counts["est-server-duration-overflows"]++
+			}
 		case "raw":
 			s := w.storeRaw(o, len(w.sess)+1)
 			w.sess = append(w.sess, s)
@@ -802,6 +816,10 @@ func runHistory(h history) runOut {
 			}
 			w.now += int64(o.Dt)
 			term = fmt.Sprintf("YTick z%d", o.Dt)
+			if o.Dt < 0 { // the clock steps back
+				term = fmt.Sprintf("YTick zm%d", -o.Dt)
+				out.counts["clock-steps-back"]++
+			}
 		case "inval":
 			s := sessOf(o.N)
 			if s == nil {
@@ -930,6 +948,7 @@ func runHistory(h history) runOut {
 
 			// ---- the direct oracle ----
 			out.checks++
+			var lazyDeleted *sess
 			holdsKey := o.Req == "legit" || (o.Req == "rightkey" && (baseKey == nil || (target != nil && bytes.Equal(baseKey, target.key))))
 			if so.ok {
 				out.ok++
@@ -964,6 +983,9 @@ func runHistory(h history) runOut {
 					target.exp = w.now + target.lease
 				}
 			} else {
+				if target != nil && target.exp >= 0 && w.now > target.exp && len(ro.wrote) > 0 {
+					lazyDeleted = target // the server's LookupNonExpired removed the expired entry for good
+				}
 				if target != nil && w.live(target) && target.usable && o.Req != "legit" || (o.Req == "legit" && target != nil && w.live(target) && target.usable && ro.clientErr == "") {
 					fail("live-session-refused", "%s: server refused a live session with a usable key", what)
 				}
@@ -1002,6 +1024,9 @@ func runHistory(h history) runOut {
 				if target != nil && ro.resumed && noID(ro.clientUser) != noID(target.clientUser) {
 					fail("identity-not-restored", "%s: client resumed with user=%q, the original handshake told it %q", what, ro.clientUser, target.clientUser)
 				}
+			}
+			if lazyDeleted != nil {
+				lazyDeleted.dead = true
 			}
 			rep := map[string]string{"none": "NoReply", "authorized": "(ReplyAuthorized [])", "sidnotfound": "ReplySidNotFound", "other": "NoReply", "broken": "NoReply"}[ro.reply]
 			if !want {
@@ -1096,7 +1121,7 @@ type replayCase struct {
 // Returns whether the replayed bytes were accepted as application data.
 func runReplay(rc replayCase) (accepted bool, detail string, recLen int, transcriptRepeats bool, err error) {
 	w := newWorld(history{})
-	s := w.establish(true, false, false, 0, 0)
+	s := w.establish(true, false, false, 0, 0, false)
 	if s == nil || s.key == nil {
 		return false, "", 0, false, errors.New("could not establish an encrypted session")
 	}
@@ -1257,6 +1282,10 @@ func gen(c *core.Ctx) error {
 		{{Kind: "raw", Key: "aesgcm32", Pol: "auth", Inh: true}, R(1, "rightkey", true), {Kind: "tick", Dt: 3000}, R(1, "rightkey", true), R(1, "rightkey", false), R(1, "idonly", true)},
 		{{Kind: "mint"}, R(1, "rightkey", true), {Kind: "tick", Dt: 1500}, R(1, "rightkey", true), {Kind: "tick", Dt: 1500}, R(1, "rightkey", true), R(1, "idonly", true), {Kind: "renew", N: 1}, R(1, "rightkey", false)},
 		{{Kind: "raw", Key: "aes32", Pol: "auth", Inh: true}, {Kind: "tick", Dt: 3000}, {Kind: "renew", N: 1}, R(1, "rightkey", true), {Kind: "sweep"}, R(1, "rightkey", true)},
+		// the server's own duration overflows int64 nanoseconds; a clock stepping back
+		{{Kind: "est", Enc: true, BigDur: true}, R(1, "rightkey", true), R(1, "idonly", true), {Kind: "tick", Dt: 500}, R(1, "rightkey", true), {Kind: "sweep"}, R(1, "rightkey", true)},
+		{{Kind: "raw", Key: "aes32", Pol: "auth"}, {Kind: "tick", Dt: 3000}, {Kind: "tick", Dt: -1500}, R(1, "rightkey", true), {Kind: "tick", Dt: 1500}, R(1, "rightkey", true), {Kind: "tick", Dt: -500}, {Kind: "tick", Dt: -500}, R(1, "idonly", true)},
+		{{Kind: "est", Enc: true}, {Kind: "tick", Dt: 3000}, R(1, "rightkey", true), {Kind: "tick", Dt: -1500}, {Kind: "tick", Dt: -1500}, R(1, "rightkey", true), R(1, "idonly", true)},
 		// the client proposes a lifetime of its own: the server's entry lives for the SERVER's duration and lease
 		{{Kind: "est", Enc: true, AskDur: 9000}, {Kind: "tick", Dt: 1500}, R(1, "rightkey", true), {Kind: "tick", Dt: 500}, {Kind: "tick", Dt: 500}, R(1, "rightkey", true), R(1, "rightkey", false)},
 		{{Kind: "est", Enc: true, AskDur: 1 << 40, AskLease: 1 << 40}, {Kind: "tick", Dt: 3000}, R(1, "rightkey", true), R(1, "idonly", true), {Kind: "renew", N: 1}},
